@@ -19,7 +19,7 @@ INF = float('inf')
 
 
 def space(tier):
-    return {'layouts': [l for l in layouts(tier)], 'families': ['decay', 'gauss', 'dominant', 'lowrank', 'ties'], 'max_rank types': ['int', 'numpy.int64', 'numpy.int32'],
+    return {'layouts': [l for l in layouts(tier)], 'families': ['decay', 'gauss', 'dominant', 'lowrank', 'ties', 'deep (1e-2 per step down to 1e-14)'], 'max_rank types': ['int', 'numpy.int64', 'numpy.int32'],
             'max_rank': [1, 2, 3, 4, 'inf', 'all per-bond lists over {1,2,3,inf}'], 'threshold': THR}
 
 
@@ -54,20 +54,21 @@ def cases(tier):
                                 if mr == 2 and scale == 1.0:
                                     for mrt in ('np64', 'np32'):
                                         yield {'ep': 'tsvd', 'm': m_, 'n': n_, 'spec': spec, 'scale': scale, 'c': c, 'rel': rel, 'thr': thr, 'mr': mr, 'mrt': mrt}
-    for sites in layouts(tier):
+    deep_only = [[[3, 2], [4, 2]], [[2, 2], [3, 2], [2, 1]], [[4, 2], [3, 2]]]      # unfoldings of rank 6 (wide and tall): cuts down to 1e-10
+    for sites in layouts(tier) + deep_only:
         d = len(sites)
-        for fam in ('decay', 'gauss', 'dominant', 'lowrank', 'ties'):
+        for fam in (('decay', 'gauss', 'dominant', 'lowrank', 'ties', 'deep') if sites not in deep_only else ('deep',)):
             for c in (False, True):
                 # TT(array, threshold, max_rank)
                 for thr in THR:
-                    for mr in (INF, 1, 2, 3, 4):
+                    for mr in ((INF, 1, 2, 3, 4) if sites not in deep_only else (INF, 3, 4, 5)):
                         yield {'ep': 'array', 'sites': sites, 'fam': fam, 'c': c, 'thr': thr, 'mr': mr}
                         if mr in (1, 2) and thr in (0, 1e-6):
                             for mrt in ('np64', 'np32'):       # the documented integer types of max_rank
                                 yield {'ep': 'array', 'sites': sites, 'fam': fam, 'c': c, 'thr': thr, 'mr': mr, 'mrt': mrt}
                 # ortho-family with int caps and per-bond lists
-                caps = [1, 2, 3, 4] + [[1] + list(x) + [1] for x in itertools.product([1, 2, 3, INF], repeat=d - 1)]
-                for ep in ('cores', 'ortho', 'right_on_left', 'left_on_right', 'right_raw', 'left_raw'):
+                caps = ([1, 2, 3, 4] if sites not in deep_only else [3, 4, 5]) + [[1] + list(x) + [1] for x in itertools.product([1, 2, 3, INF], repeat=d - 1)]
+                for ep in ('cores', 'ortho', 'ortho_hist', 'right_on_left', 'left_on_right', 'right_raw', 'left_raw'):
                     for mr in caps:
                         if ep == 'cores' and isinstance(mr, list):
                             continue
@@ -104,6 +105,9 @@ def make_tensor(case, rng):
         return 5.0 * rank1() + 1e-3 * g(shape)
     if fam == 'lowrank':
         return rank1() + 0.5 * rank1() + 1e-14 * g(shape)
+    if fam == 'deep':
+        # singular values 1, 1e-2, ..., 1e-14: truncation inside the part of the spectrum far below sqrt(eps)
+        return sum(10.0 ** (-2 * j) * rank1() for j in range(8))
     if fam == 'ties':
         # exactly tied singular values in every unfolding: sum of J unit tensors e_j x ... x e_j with weights (2,2[,1,1]) -> the
         # unfoldings are weighted partial permutation matrices (GHZ-like states, identity-like operators)
@@ -199,6 +203,16 @@ def run_case(case, seed):
                 T = tt_from(cores)
                 if ep == 'ortho':
                     T.ortho(max_rank=mr_arg)
+                elif ep == 'ortho_hist':
+                    # history on one object: left sweep, then every bond is re-gauged from outside (new core arrays, same
+                    # tensor), then the truncating two-sided sweep
+                    T.ortho_left()
+                    for i in range(d - 1):
+                        k = T.cores[i].shape[3]
+                        G = rng.standard_normal((k, k)) + 3 * np.eye(k)
+                        T.cores[i] = np.tensordot(T.cores[i], G, axes=(3, 0))
+                        T.cores[i + 1] = np.tensordot(np.linalg.inv(G), T.cores[i + 1], axes=(1, 0))
+                    T.ortho(max_rank=mr_arg)
                 elif ep == 'right_on_left':
                     T.ortho_left(); T.ortho_right(max_rank=mr_arg)
                 elif ep == 'left_on_right':
@@ -222,7 +236,7 @@ def run_case(case, seed):
         r.outcome = 'truncated' if r.nontrivial else 'exact'
         if bounded:
             err = np.linalg.norm((dn(T) - x).ravel())
-            slack = 1e-10 * max(1.0, nx)
+            slack = (1e-10 if case['fam'] != 'deep' else 1e-13) * max(1.0, nx)
             if thr == 0:
                 # (ii) quasi-optimality with the requested caps
                 bound = np.sqrt(sum(tail(k, caps[k]) for k in range(1, d)))
